@@ -119,21 +119,20 @@ def mirror(mdib_file, n_steps, seeds, kinds=None):
                 if d:
                     bad.append({'key': f'mirror-differs:{kind}', 'detail': f'{mdib_file} seed {seed} step {i} {kind} {detail}: {d[:2]}'})
                     break
-                # notifications name exactly the changed entities
-                for tr in results:
+                # notifications name exactly the changed entities (a step may commit more than one transaction, e.g.
+                # set_location: the union over the step's transactions is compared)
+                if not any(tr.has_descriptor_updates for tr in results):
+                    # (states re-sent with a description modification are not separate state notifications)
                     for obs, attr in OBS.items():
-                        want = sorted({(s.Handle if s.is_context_state else s.DescriptorHandle) for s in getattr(tr, attr)})
-                        got = sorted({k for v in notes.get(obs, []) for k in v})
-                        if tr.has_descriptor_updates:
-                            # states re-sent with a description modification are not separate state notifications
-                            continue
-                        if want != got:
-                            bad.append({'key': f'notification-differs:{obs}', 'detail': f'{mdib_file} seed {seed} step {i} {kind}: {obs} named {got[:4]}, the transaction changed {want[:4]}'})
-                    for obs, attr in DESCR_OBS.items():
-                        want = sorted({d_.Handle for d_ in getattr(tr, attr)})
+                        want = sorted({(s.Handle if s.is_context_state else s.DescriptorHandle) for tr in results for s in getattr(tr, attr)})
                         got = sorted({k for v in notes.get(obs, []) for k in v})
                         if want != got:
                             bad.append({'key': f'notification-differs:{obs}', 'detail': f'{mdib_file} seed {seed} step {i} {kind}: {obs} named {got[:4]}, the transaction changed {want[:4]}'})
+                for obs, attr in DESCR_OBS.items():
+                    want = sorted({d_.Handle for tr in results for d_ in getattr(tr, attr)})
+                    got = sorted({k for v in notes.get(obs, []) for k in v})
+                    if want != got:
+                        bad.append({'key': f'notification-differs:{obs}', 'detail': f'{mdib_file} seed {seed} step {i} {kind}: {obs} named {got[:4]}, the transaction changed {want[:4]}'})
                 if len(bad) > 4:
                     break
         if len(bad) > 4:
